@@ -113,7 +113,8 @@ const SGR_CODES: &[i64] = &[
 
 fn sgr_list(rng: &mut Rng) -> Vec<i64> {
     let mut v = Vec::new();
-    let n = rng.below(4);
+    // now and then a list longer than any fixed-size parameter buffer
+    let n = if rng.chance(1, 30) { *rng.pick(&[15u64, 16, 17, 31, 32, 33, 40, 64, 70]) } else { rng.below(4) };
     for _ in 0..=n {
         match rng.below(12) {
             0 => {
@@ -497,14 +498,18 @@ pub fn chunkedsoup(rng: &mut Rng, i: u64, opts: &Opts) -> Vec<History> {
     let bytes = soup_bytes(rng, n, c, l, utf8);
     let sid = format!("csoup-{}", i);
     let mut out = Vec::new();
-    for style in 0..6u64 {
-        let cuts = cut_points(rng, bytes.len(), style.min(3));
+    for style in 0..9u64 {
+        // styles 6..8: byte-at-a-time / one cut / k-way cuts with an empty feed() after every chunk
+        let cuts = cut_points(rng, bytes.len(), if style >= 6 { style - 5 } else { style.min(3) });
         let mut evs = Vec::new();
         let mut prev = 0usize;
         let mut bounds = cuts;
         bounds.push(bytes.len());
         for b in bounds {
             evs.push(HEv { b: bytes[prev..b].to_vec(), ..hev("feedb", vec![], vec![], false, "bytes") });
+            if style >= 6 {
+                evs.push(HEv { b: vec![], ..hev("feedb", vec![], vec![], false, "bytes") });
+            }
             prev = b;
         }
         out.push(History { id: format!("{}-{}", sid, style), sid: sid.clone(), cmp: "C02".into(), c, l, scr: true, utf8, evs, setup: vec![], dispsetup: false });
@@ -528,8 +533,14 @@ pub fn recsoup(rng: &mut Rng, i: u64, opts: &Opts) -> Vec<History> {
         match rng.below(10) {
             0 => {
                 // digit run, sometimes longer than any machine integer
-                let k = *rng.pick(&[1u64, 2, 4, 5, 19, 20, 21, 40]);
-                for _ in 0..k { s.push(0x30 + rng.below(10) as u32); }
+                if rng.chance(1, 4) {
+                    // a value just above a power of two: what a narrowing cast before the 9999 cap would turn into a small number
+                    let v = *rng.pick(&["256", "261", "65536", "65541", "4294967296", "4294967301", "18446744073709551616", "18446744073709551621"]);
+                    s.extend(v.chars().map(|c| c as u32));
+                } else {
+                    let k = *rng.pick(&[1u64, 2, 4, 5, 19, 20, 21, 40]);
+                    for _ in 0..k { s.push(0x30 + rng.below(10) as u32); }
+                }
             }
             1 => {
                 // an OSC string
